@@ -4,6 +4,8 @@ import MindsVerif.Lemmas.Ident
 import MindsVerif.Lemmas.Codec
 import MindsVerif.Lemmas.IdentBq
 import MindsVerif.Lemmas.Variable
+import MindsVerif.Lemmas.PreLex
+import MindsVerif.Lemmas.Hist
 import MindsVerif.Model.LexTab
 import MindsVerif.Gen.Lex_sqlite
 import MindsVerif.Gen.Lex_mysql
@@ -481,5 +483,147 @@ example : encOK ['i', 't', '\'', 's', ' ', '\\', 'n'] = true := by decide
 example : usesEscape [.ch 'a', .esc 'n'] = false := by decide
 example : PartRep ['s', 'e', 'l', 'e', 'c', 't'] ∧ PartRep ['a', '.', ' ', '1'] := by
   refine ⟨⟨by decide, by decide⟩, ⟨by decide, by decide⟩⟩
+
+/-! ## Round 5 (a): the text between `parse_sql`'s argument and the lexer
+
+The codec theorems above speak about the text THE LEXER gets.  `parse_sql` first rewrites its argument
+(`re.sub(r'[\s;]+$', '', sql)`, model `PreLex.preLex`, tied by the `prelex` stream which captures what the real
+`parse_sql` hands to `lexer.tokenize`).  The theorems below close that gap: whatever stands in front of a token that
+ends in a character outside `[\s;]` — every string literal ends in its quote, every quoted identifier in its
+back-quote — and whatever run of white space / semicolons follows it, the lexer receives the token code point by
+code point (CR, LF, TAB, VT, FF, FS–US, NEL, LS, PS inside it included), and the reader returns the denoted value. -/
+
+/-- the pre-lexing step keeps every token that ends in a character outside `[\s;]`, with all that precedes it -/
+theorem C04_prelex_exact (pre tok trail : List Char) (c : Char) (hc : PreLex.isTrail c = false)
+    (ht : ∀ x ∈ trail, PreLex.isTrail x = true) :
+    PreLex.preLex (pre ++ (tok ++ [c]) ++ trail) = pre ++ (tok ++ [c]) := by
+  have e : pre ++ (tok ++ [c]) ++ trail = (pre ++ tok) ++ [c] ++ trail := by simp
+  rw [e, PreLex.preLex_keep _ _ c hc ht]; simp
+
+/-- the text handed to the lexer is a prefix of the statement: nothing before the cut is changed -/
+theorem C04_prelex_prefix (s : List Char) : PreLex.preLex s <+: s := PreLex.preLex_prefix s
+
+/-- **`parse_sql` on a statement ending in a string literal** (any text before it, any white space / `;` behind it):
+the lexer input is `pre ++ literal`, and the reader, started where the literal starts, returns exactly the value the
+literal denotes — for EVERY specification literal, whatever code points it contains -/
+theorem C04_prelex_literal (pre trail : List Char) (items : List Item)
+    (ht : ∀ x ∈ trail, PreLex.isTrail x = true) :
+    (WF '\'' true items →
+      PreLex.preLex (pre ++ srcLit '\'' items ++ trail) = pre ++ srcLit '\'' items ∧
+      Codec.readString ((PreLex.preLex (pre ++ srcLit '\'' items ++ trail)).drop pre.length) =
+        some (denote '\'' items, [])) ∧
+    (WF '"' false items →
+      PreLex.preLex (pre ++ srcLit '"' items ++ trail) = pre ++ srcLit '"' items ∧
+      Codec.readString ((PreLex.preLex (pre ++ srcLit '"' items ++ trail)).drop pre.length) =
+        some (denote '"' items, [])) := by
+  have e1 : PreLex.preLex (pre ++ srcLit '\'' items ++ trail) = pre ++ srcLit '\'' items := by
+    have := C04_prelex_exact pre ('\'' :: srcBody '\'' items) trail '\'' (by decide) ht
+    simpa [srcLit] using this
+  have e2 : PreLex.preLex (pre ++ srcLit '"' items ++ trail) = pre ++ srcLit '"' items := by
+    have := C04_prelex_exact pre ('"' :: srcBody '"' items) trail '"' (by decide) ht
+    simpa [srcLit] using this
+  refine ⟨fun hw => ⟨e1, ?_⟩, fun hw => ⟨e2, ?_⟩⟩
+  · rw [e1, List.drop_left]
+    simpa using Codec.read_src items [] hw (by simp)
+  · rw [e2, List.drop_left]
+    simpa using Codec.read_src_dquote items [] hw
+
+/-- CR LF, LF CR, TAB, VT, FF, U+001C–U+001F, NEL, LS, PS between the quotes of a literal and the back-quotes of an
+identifier, Windows line ends between the tokens and behind the statement -/
+example : Codec.readString ((PreLex.preLex "select 'a\r\nb\n\r\t\x0b\x0c\x1c\x1d\x1e\x1f\u0085  ' ;\r\n".toList).drop 7) =
+    some ("a\r\nb\n\r\t\x0b\x0c\x1c\x1d\x1e\x1f\u0085  ".toList, []) := by decide +kernel
+example : PreLex.preLex "select\r\n`a\r\nb` ;\r\n;".toList = "select\r\n`a\r\nb`".toList ∧
+    LexBq.lexIdentPath K_mindsdb "`a\r\nb`".toList = some ["a\r\nb".toList] := by decide +kernel
+
+/-! ## Round 5 (b): the printed form of a node is a function of the state it holds NOW
+
+`Model/Hist.lean`: a history is a list of observations (print, `==`, `to_tree`, copy) and in-place edits.  The live
+printers compute the text from the current attributes (`Hist.runLive`; tied to real `Identifier` objects by the
+`ident-history` stream).  Consequences, for ALL histories: every text observed is the rendering of the parts held at
+that moment and is read back as exactly those parts; observations are pure; and any printer that remembers its text
+is equivalent to the live one iff it forgets on every edit that changes the printed form. -/
+
+abbrev IdOp := Hist.ListOp (List Char)
+
+/-- **identifier histories** (generic in the keyword table): whatever sequence of `parts` edits (assign, pop, insert,
+append, item assignment, extend, reverse) and observations an `Identifier` went through, each text it printed is
+`parts_to_str` of the parts it held at that moment and the lexer + grammar read it back as exactly those parts -/
+theorem C04_history_identifier (K : KwTable) (reserved kf : List (List Char)) (h : Ident.phi4 K reserved kf = true)
+    (evs : List (Hist.Ev IdOp)) (s0 : List (List Char)) (p : List (List Char) × List Char)
+    (hp : p ∈ (Hist.states Hist.ListOp.apply evs s0).zip
+      (Hist.runLive Hist.ListOp.apply (LexBq.partsToStr reserved) evs s0))
+    (hne : p.1 ≠ []) (hparts : ∀ q ∈ p.1, IdentBq.PartOK kf q) :
+    p.2 = LexBq.partsToStr reserved p.1 ∧ LexBq.lexIdentPath K p.2 = some p.1 := by
+  have e := Hist.live_current Hist.ListOp.apply (LexBq.partsToStr reserved) evs s0 p hp
+  exact ⟨e, by rw [e]; exact IdentBq.ident_roundtrip K reserved kf h p.1 hne hparts⟩
+
+theorem C04_history_identifier_mindsdb (evs : List (Hist.Ev IdOp)) (s0 : List (List Char))
+    (p : List (List Char) × List Char)
+    (hp : p ∈ (Hist.states Hist.ListOp.apply evs s0).zip
+      (Hist.runLive Hist.ListOp.apply (LexBq.partsToStr reservedL) evs s0))
+    (hne : p.1 ≠ []) (hparts : ∀ q ∈ p.1, q ≠ []) :
+    LexBq.lexIdentPath K_mindsdb p.2 = some p.1 :=
+  (C04_history_identifier _ _ _ phi4h_mindsdb evs s0 p hp hne fun q hq => ⟨hparts q hq, rfl⟩).2
+theorem C04_history_identifier_mysql (evs : List (Hist.Ev IdOp)) (s0 : List (List Char))
+    (p : List (List Char) × List Char)
+    (hp : p ∈ (Hist.states Hist.ListOp.apply evs s0).zip
+      (Hist.runLive Hist.ListOp.apply (LexBq.partsToStr reservedL) evs s0))
+    (hne : p.1 ≠ []) (hparts : ∀ q ∈ p.1, q ≠ []) :
+    LexBq.lexIdentPath K_mysql p.2 = some p.1 :=
+  (C04_history_identifier _ _ _ phi4h_mysql evs s0 p hp hne fun q hq => ⟨hparts q hq, rfl⟩).2
+theorem C04_history_identifier_sqlite (evs : List (Hist.Ev IdOp)) (s0 : List (List Char))
+    (p : List (List Char) × List Char)
+    (hp : p ∈ (Hist.states Hist.ListOp.apply evs s0).zip
+      (Hist.runLive Hist.ListOp.apply (LexBq.partsToStr reservedL) evs s0))
+    (hne : p.1 ≠ []) (hparts : ∀ q ∈ p.1, q ≠ []) :
+    LexBq.lexIdentPath K_sqlite p.2 = some p.1 :=
+  (C04_history_identifier _ _ _ phi4h_sqlite evs s0 p hp hne fun q hq => ⟨hparts q hq, rfl⟩).2
+
+/-- **string constants under re-assignment of `value`** (`param.value = …`, `Constant.value = …`): every printed text
+is read back as the value held at that moment -/
+theorem C04_history_constant (evs : List (Hist.Ev (List Char))) (v0 rest : List Char)
+    (p : List Char × List Char) (hr : rest.head? ≠ some '\'')
+    (hp : p ∈ (Hist.states (fun v _ => v) evs v0).zip (Hist.runLive (fun v _ => v) Codec.constantToString evs v0)) :
+    Codec.readString (p.2 ++ rest) = some (p.1, rest) := by
+  rw [Hist.live_current (fun v _ => v) Codec.constantToString evs v0 p hp]
+  exact Codec.roundtrip p.1 rest hr
+
+/-- **observations are pure** (any node, any printer of the live kind): the text printed after a history is the text
+an object prints that went through the same edits and was never looked at -/
+theorem C04_history_obs_pure {ω σ τ : Type} (step : ω → σ → σ) (pr : σ → τ) (evs : List (Hist.Ev ω)) (s : σ) :
+    (Hist.runLive step pr (evs ++ [.obs]) s).getLast? = (Hist.runLive step pr (Hist.edits evs ++ [.obs]) s).getLast? :=
+  Hist.live_obs_pure step pr evs s
+
+/-- **which remembered texts are harmless**: a printer that keeps its text and forgets it on the edits `inv` selects
+prints, on all histories, what the live printer prints iff every edit it does NOT forget on leaves the printed form
+unchanged (a cache keyed on the tuple of parts qualifies; "forget in the setter of `parts`" does not: `pop`) -/
+theorem C04_memo_iff {ω σ τ : Type} (step : ω → σ → σ) (pr : σ → τ) (inv : ω → Bool) :
+    (∀ evs s, Hist.runMemo step pr inv evs s none = Hist.runLive step pr evs s) ↔
+      (∀ o s, inv o = false → pr (step o s) = pr s) :=
+  Hist.memo_iff step pr inv
+
+/-- the class of the escaped change, in the model: text remembered until `parts` is re-assigned; after
+`parts.pop(0)` the identifier holding `['My Tab']` still prints ``Int1.`My Tab` ``, which denotes the OLD path -/
+theorem C04_witness_stale_cache :
+    Hist.runMemo Hist.ListOp.apply (LexBq.partsToStr reservedL) Hist.invOnAssign
+      [.act (.assign ["Int1".toList, "My Tab".toList]), .obs, .act (.pop 0), .obs] [] none =
+      ["Int1.`My Tab`".toList, "Int1.`My Tab`".toList] ∧
+    Hist.states Hist.ListOp.apply
+      [.act (.assign ["Int1".toList, "My Tab".toList]), .obs, .act (.pop 0), .obs] ([] : List (List Char)) =
+      [["Int1".toList, "My Tab".toList], ["My Tab".toList]] ∧
+    LexBq.lexIdentPath K_mindsdb "Int1.`My Tab`".toList = some ["Int1".toList, "My Tab".toList] ∧
+    ¬ (∀ evs s, Hist.runMemo Hist.ListOp.apply (LexBq.partsToStr reservedL) Hist.invOnAssign evs s none =
+        Hist.runLive Hist.ListOp.apply (LexBq.partsToStr reservedL) evs s) := by
+  refine ⟨by decide +kernel, by decide +kernel, by decide +kernel, ?_⟩
+  intro H
+  have := (C04_memo_iff _ _ _).mp H (.pop 0) ["Int1".toList, "My Tab".toList] rfl
+  revert this; decide +kernel
+
+/-- non-vacuity: the live machine on the same history prints the current path, which is read back -/
+example : Hist.runLive Hist.ListOp.apply (LexBq.partsToStr reservedL)
+      [.act (.assign ["Int1".toList, "My Tab".toList]), .obs, .act (.pop 0), .obs,
+       .act (.insert 0 "Proj.A".toList), .obs, .act (.setItem 1 "NAME".toList), .obs] [] =
+      ["Int1.`My Tab`".toList, "`My Tab`".toList, "`Proj.A`.`My Tab`".toList, "`Proj.A`.NAME".toList] := by
+  decide +kernel
 
 end MindsVerif.Props.C04
